@@ -3869,17 +3869,16 @@ impl M2Model {
 
             // For each texture, update the offset in the definition and write the filename
             for (i, texture) in self.textures.iter().enumerate() {
-                // Get the filename
-                let filename_offset = texture.filename.array.offset as usize;
-                let filename_len = texture.filename.array.count as usize;
-                // Not every texture has a filename (some are hardcoded)
-                if filename_offset == 0 || filename_len == 0 {
+                // Not every texture has a filename (only file-backed ones do)
+                if texture.filename.string.data.is_empty() {
                     continue;
                 }
+                // The stored length counts the terminator
+                let filename_len = texture.filename.string.data.len() + 1;
 
                 // Calculate the offset in the data section where this texture's definition was written
-                // The texture definitions start at (header.textures.offset - base_data_offset)
-                let base_data_offset = std::mem::size_of::<M2Header>();
+                // The data section starts right behind the serialized header
+                let base_data_offset = header_size;
                 let def_offset_in_data = (header.textures.offset as usize - base_data_offset)
                     + (i * texture_def_size)
                     + 8;
